@@ -502,6 +502,9 @@ def c18(tier, seed):
     qs = c18_block_queries()
     qs.append(blkq("blk_fault_emit_send", "h_emit_send", K=2, replace={}, defines=["FAULTS_SEND"], safety_for=("C01", "C18"),
                    desc="real sendProbeMsg with failing allocation / refused transmits: buffers released on every path"))
+    qs.append(Query("c18_degraded", "c18_ctors.c", "h_degraded", unwind=17, backends=("cadical", "minisat", "kissat"), safety_for=("C01", "C18"), timeout=900,
+                    bounds={"start-up": "each of the first 8 allocations may fail (automata without extra state, missing automata, missing table)", "afterwards": "tick, every band/mapping/table helper, tick - arbitrary states and clock"},
+                    desc="degraded operation after start-up allocation faults: tick and helpers never dereference a missing part"))
     qs.append(Query("c18_ctors", "c18_ctors.c", "h_ctors", unwind=4, backends=("minisat", "cadical"), safety_for=("C01", "C18"),
                     bounds={"constructor": "symbolic choice of init_automata_mapping / enumeration / session / session_table_create", "allocations": "each of the first 8 may fail"},
                     desc="automata constructors under failing allocation: NULL or fully initialised, no dereference of a missing allocation, no leak"))
